@@ -16,14 +16,13 @@ EXTENDS Naturals, Sequences
 Caret == 94      \* "^" component delimiter
 EqSign == 61     \* "=" component group delimiter
 Space == 32
-Backslash == 92  \* value delimiter, cannot occur inside a PN value
 
 NComp == 5
 
 (* premise of the property: no delimiters inside a component, no leading   *)
 (* or trailing space                                                       *)
 WellFormedComp(s) ==
-    /\ \A i \in 1..Len(s) : s[i] \notin {Caret, EqSign, Backslash}
+    /\ \A i \in 1..Len(s) : s[i] \notin {Caret, EqSign}
     /\ (Len(s) > 0) => (s[1] # Space /\ s[Len(s)] # Space)
 WellFormed(c) == Len(c) = NComp /\ \A i \in 1..NComp : WellFormedComp(c[i])
 
